@@ -436,8 +436,8 @@ func checkC12(P *Program, r *Result, tier string) {
 				}
 				// receiver of ex.FastRead is a fresh ApplicationException; it is what is returned as error
 				recv := exRead.Common().Args[0]
-				mk := staticCallNamed(recv, "NewApplicationException")
-				r.add("EXC-BRANCH", shortName(exFn), "fresh", "the exception is decoded into a fresh ApplicationException", P.pos(instrPos(exRead)), mk != nil, "")
+				_, _, fresh := excBuilt(recv, "ApplicationException", "NewApplicationException")
+				r.add("EXC-BRANCH", shortName(exFn), "fresh", "the exception is decoded into a fresh ApplicationException", P.pos(instrPos(exRead)), fresh, "")
 				retOK, retErrOK := false, false
 				if exCall == nil {
 					for _, ret := range returnsOf(um) {
